@@ -1,4 +1,5 @@
 import Proofs.ExtractShape
+import Proofs.ExtractPerm
 
 /-!
   C14 — Component extraction mirrors the BridgePoint class model.
@@ -279,6 +280,19 @@ theorem edit_frame_move (kl : String) (pos rel : Nat) (c : SClass) (g : SGroup) 
       (schemaEdit (.insertGroup pos g) s).groups.Perm (g :: s.groups)) :=
   ⟨frame_dropClass kl s, frame_insertClass pos c s, frame_dropGroup rel s, frame_insertGroup pos g s⟩
 
+/-! ### the order of the rows does not matter -/
+
+/-- permuting the class, relationship, data type and container rows (identifiers being unique) permutes the
+    defined classes and the association groups and changes nothing else.  (Row orders below that level —
+    O_ID, O_OIDA, O_REF, R_SUB rows — only permute identifiers, identifier attributes, key pairs and the
+    associations of a subtype relationship; that part is tied by correspondence: the encoder shuffles all rows
+    and the observations are canonicalised accordingly.) -/
+theorem extract_deterministic_under_row_order {d d' : ClassDiagram} (hp : RowPerm d d') (wf : RowWF d)
+    (comp : Option Nat) (drv : Bool) :
+    (extract d comp drv).classes.Perm (extract d' comp drv).classes ∧
+    (extract d comp drv).groups.Perm (extract d' comp drv).groups :=
+  extract_perm hp wf comp drv
+
 /-! ### non-vacuity: a concrete diagram meets the hypotheses, and the edits really change the result -/
 
 /-- Owner (id, name, derived age; I1 = id) and Dog (tag : user type of integer, color : enumeration,
@@ -341,6 +355,11 @@ example : (extract (applyEdit (.retypeAttr 1 11 104) d0) none false).classes.map
 /-- R_AONE.Mult lands in the SECOND association of the linked relationship -/
 example : ((extract (applyEdit (.setMult 42 .one true) d0) none false).groups.map
     (fun g => g.items.map (fun a => a.src.many))) = [[true], [true, true]] := by decide
+
+/-- the rows of d0 in reverse order -/
+example : RowWF d0 ∧ RowPerm d0 ⟨d0.containers.reverse, d0.dts.reverse, d0.classes.reverse, d0.rels.reverse⟩ :=
+  ⟨⟨by decide, by decide, by decide⟩,
+   ⟨(List.reverse_perm _).symm, (List.reverse_perm _).symm, (List.reverse_perm _).symm, (List.reverse_perm _).symm⟩⟩
 
 /-- moving Owner and R1 out of the component removes exactly them -/
 example : (extract (applyEdits [.moveRel 41 .none, .moveClass 1 (.pkg 7)] d0) (some 6) false).classes.map (·.kl) =
